@@ -734,6 +734,10 @@ var corpus = []string{
 }
 
 func main() {
+	if len(os.Args) > 1 && os.Args[1] == "payout-child" { // callers.go: one history of the payout-address callers, fresh process
+		payoutChild(os.Args[2:])
+		return
+	}
 	r = vlib.NewRun("C15")
 	var err error
 	o, err = vlib.StartOracle("c15")
@@ -962,6 +966,8 @@ func main() {
 	concStreams(g.Fork(), valid)
 	// 12. typed strings with characters outside ASCII: aliases of alphabet characters (unicode.go)
 	unicodeStreams(g.Fork(), valid)
+	// 13. the callers that keep a typed address across calls: minadr / block templates / validateaddress (callers.go)
+	payoutStreams(g.Fork(), valid)
 
 	r.Assume = []string{
 		"SHA-256 and RIPEMD-160 are modelled (Lean executable versions validated here against Go's), theorems are parametric in them",
@@ -1014,6 +1020,8 @@ func replay(path string) {
 		checkHist("replay", toks)
 	case "conc":
 		replayConc(doc.Replay)
+	case "payout":
+		replayPayout(doc.Replay)
 	case "b58sched":
 		var args []string
 		if l, ok := doc.Replay["args"].([]interface{}); ok {
